@@ -15,6 +15,29 @@ CHECKS = {
    note=('Trusted: collections.ChainMap semantics, CPython ast. Decides the structural premises, '
          'not run-time histories; user subclasses of LatexContextDb are outside the rule.'),
    technique='AST effect/ownership analysis over class LatexContextDb (mirror invariant, dominating frozen guard, freshness depth, kind coherence)'),
+ 'C15': dict(level='other', design='DESIGN.md section 5, C15',
+   text=('Decides on the source of read_latex_file/read_input_file the structural conditions of strict-input '
+         'containment for every requested name at once: component-aware containment test (bare prefix refuted), '
+         'the value tested is os.path.realpath(...) of what is opened, no re-binding between test and open, failing '
+         'branch returns, strict flag plumbing and default, and no other file-reading call in the package.'),
+   note=('Trusted: os.path.realpath/commonpath semantics, no file-system race between check and open. The behaviour '
+         'of the os.path functions is not analysed; custom read_input_file overrides are outside the rule.'),
+   technique='AST def-use / guard analysis of the containment check (checked value = opened value), who-may-open rule over the package'),
+ 'C17': dict(level='proof', design='DESIGN.md section 5, C17',
+   text=('Premises P1-P7 decided on class ParsingState: derived tables are functions of fields, the inherit guard of '
+         'each _finalize_* tests every field its table transitively depends on (cache-key completeness), all fields '
+         'travel through sub_context, both arms assign the same like-named tables, finalisers run in dependency order, '
+         'no store/in-place mutation of a state outside set_fields/_finalize_*.  The induction over the sub_context '
+         'chain is written in the evidence file.'),
+   note='Trusted: CPython ast; == on field values (_safe_eq). User subclasses of ParsingState are outside the rule.',
+   technique='AST dependency analysis of derived attributes vs. cache-key guards, field/parameter set agreement, effect analysis over the package'),
+ 'C19': dict(level='proof', design='DESIGN.md section 5, C19',
+   text=('Premises V1-V5 decided on the node classes and LatexNodesVisitor: single double-dispatch per class, one '
+         'unconditional descend per child-bearing field in evaluation order arguments->body, one visit call receiving '
+         'exactly those results, descend_into_nodelist yields one result per element with None placeholders; structural '
+         'induction on tree height gives the property for all trees.'),
+   note='Trusted: CPython ast and left-to-right evaluation order. User visitor subclasses are outside the rule.',
+   technique='AST structural rules over the visitor double dispatch (exactly-once descend, evaluation order, result forwarding)'),
 }
 
 NOT_YET = {}
